@@ -1472,3 +1472,91 @@ def _install_argminmax():
 
 
 _install_argminmax()
+
+
+# ---------------------------------------------------------------------------------------------------- operator chains
+ASSUMED.update({
+    "operator callables of a parse tree": "the callables that the op2_* visitors hand to a chain visitor are the operator "
+                                          "functions of pydsdl._expression (binary wrappers / attribute): applied to "
+                                          "(left, right) they return an expression value apply_op(op, left, right) - a "
+                                          "function of the callable and its two arguments in this order - or raise a "
+                                          "subclass of InvalidOperandError (contracts of the wrappers, specs/expr.py)",
+})
+ChainItemSort = z3.DeclareSort("ChainItem")
+CH_OP = _uf("chain!operator", ChainItemSort, z3.IntSort())
+CH_RIGHT = _uf("chain!right", ChainItemSort, V.RefSort)
+CH_NAME = _uf("chain!identifier", ChainItemSort, z3.StringSort())
+APPLY_OP = _uf("apply_op", z3.IntSort(), V.RefSort, V.RefSort, V.RefSort)
+APPLY_ATTR = _uf("apply_attribute", z3.IntSort(), V.RefSort, z3.StringSort(), V.RefSort)
+
+
+class OperatorV:
+    """An operator callable taken from a parse tree (symbolic identity)."""
+
+    def __init__(self, ident):
+        self.ident = ident
+
+    def __repr__(self):
+        return "<operator %s>" % self.ident
+
+
+class ChainItemK(Kind):
+    """One `(_? op _? operand)` group of an operator chain: (blank, operator callable, blank, right operand).
+    `named`: the right operand is an identifier (attribute chain), else an expression value."""
+
+    def __init__(self, named=False):
+        self.named = named
+
+    def sort(self):
+        return ChainItemSort
+
+    def wrap(self, ctx, term):
+        right = CH_NAME(term) if self.named else V.ObjOf("pydsdl._expression._any.Any").wrap(ctx, CH_RIGHT(term))
+        if not self.named:
+            ctx.engine.assume_class_range(ctx, right)
+        return (V.Opaque("blank"), OperatorV(CH_OP(term)), V.Opaque("blank"), right)
+
+    def unwrap(self, v):
+        raise EngineLimit("a chain item cannot be built by the code under contract")
+
+
+_orig_engine_call = Engine.call
+
+
+def engine_call(self, ctx, callee, args, kwargs):
+    if isinstance(callee, OperatorV):
+        if kwargs or len(args) != 2 or not isinstance(args[0], Obj):
+            raise EngineLimit("operator callable applied to %r" % (args,))
+        if ctx.choose(2) == 1:
+            raise PyRaise(ExcVal(self.exc_class("InvalidOperandError")))
+        left, right = args
+        if isinstance(right, Obj):
+            r = APPLY_OP(callee.ident, left.ref, right.ref)
+        else:
+            r = APPLY_ATTR(callee.ident, left.ref, V.Str.unwrap(right))
+        res = V.ObjOf("pydsdl._expression._any.Any").wrap(ctx, r)
+        self.assume_class_range(ctx, res)
+        return res
+    return _orig_engine_call(self, ctx, callee, args, kwargs)
+
+
+Engine.call = engine_call
+FOLD = _uf("chain!fold", z3.ArraySort(z3.IntSort(), ChainItemSort), V.RefSort, z3.IntSort(), V.RefSort)
+FOLD_NAMED = _uf("chain!fold_named", z3.ArraySort(z3.IntSort(), ChainItemSort), V.RefSort, z3.IntSort(), V.RefSort)
+
+
+def fold_term(ctx, seq: SymSeq, first: Obj, n, named: bool):
+    """foldl over the first n items of the chain, starting from `first` (definition by recursion on n, stated as an axiom
+    that is instantiated where the fold of a prefix and the next item meet)."""
+    F = FOLD_NAMED if named else FOLD
+    i = z3.FreshConst(z3.IntSort(), "fi")
+    it = z3.Select(seq.arr, i)
+    step = APPLY_ATTR(CH_OP(it), F(seq.arr, first.ref, i), CH_NAME(it)) if named else \
+        APPLY_OP(CH_OP(it), F(seq.arr, first.ref, i), CH_RIGHT(it))
+    body = z3.Implies(i >= 0, F(seq.arr, first.ref, i + 1) == step)
+    try:
+        ctx.add_axiom(z3.ForAll([i], body, patterns=[z3.MultiPattern(F(seq.arr, first.ref, i), it)]))
+    except z3.Z3Exception:  # the sequence is not a plain array name (e.g. a slice): no explicit trigger
+        ctx.add_axiom(z3.ForAll([i], body, patterns=[F(seq.arr, first.ref, i)]))
+    ctx.add_axiom(F(seq.arr, first.ref, z3.IntVal(0)) == first.ref)
+    return F(seq.arr, first.ref, n)
